@@ -22,16 +22,16 @@ Definition is_sep (c : Z) : bool := (c =? 44) || (c =? 58) || (c =? 46).     (* 
 Definition cls (c : Z) : Z :=
   if is_alpha c then 1 else if is_digit c then 2 else if is_sep c then 3 else 0.
 
-Definition flush (cur : list Z) : list (list Z) :=
+Definition flush_tok (cur : list Z) : list (list Z) :=
   match cur with [] => [] | _ => [cur] end.
 
 (* cur = characters of the token being collected, k = its class *)
 Fixpoint tok (s : list Z) (cur : list Z) (k : Z) : list (list Z) :=
   match s with
-  | [] => flush cur
+  | [] => flush_tok cur
   | c :: t =>
       let kc := cls c in
-      if kc =? 3 then flush cur ++ [c] :: tok t [] 0
+      if kc =? 3 then flush_tok cur ++ [c] :: tok t [] 0
       else match cur with
            | [] => tok t [c] kc
            | _ => if kc =? k then tok t (cur ++ [c]) k else cur :: tok t [c] kc
@@ -134,7 +134,7 @@ Definition read_offset (l : list (list Z)) (i : nat) : option (Z * nat * list na
     if tk_is l i C_PLUS then (-1, S i, [i])
     else if tk_is l i C_MINUS then (1, S i, [i])
     else (-1, i, []) in
-  do '(v, i2, used1) <- read_hhmm false l i1;
+  do (v, i2, used1) <- read_hhmm false l i1;
   Some (v * signal, i2, used0 ++ used1).
 
 Definition starts_offset (l : list (list Z)) (i : nat) : bool :=
@@ -159,7 +159,7 @@ Definition name_step (l : list (list Z)) (i : nat)
     let abbr := concat_toks (slice l i j) in
     let used := seq 0 j in
     if starts_offset l j then
-      do '(v, i2, u) <- read_offset l j;
+      do (v, i2, u) <- read_offset l j;
       Some (Some (abbr, Some v), i2, used ++ u)
     else Some (Some (abbr, None), j, used).
 
@@ -190,7 +190,7 @@ Definition dep_rule (l : list (list Z)) (i : nat) : option (tzattr * nat * list 
   do t0 <- tk l i; do month <- int_tok t0;
   let u0 := [i] in let i := (i + 2)%nat in
   do t1 <- tk l i;
-  do '(value, i, u1) <-
+  do (value, i, u1) <-
      (if list_eqb t1 [C_MINUS] then
         do t <- tk l (S i); do v <- int_tok t; Some (v * -1, S i, [i])
       else do v <- int_tok t1; Some (v, i, []));
@@ -214,7 +214,7 @@ Definition is_dash_or_dot (l : list (list Z)) (i : nat) : bool :=
 
 Definition posix_rule (l : list (list Z)) (i : nat) : option (tzattr * nat * list nat) :=
   do t <- tk l i;                                     (* l[i]: IndexError when missing *)
-  do '(a, i, u) <-
+  do (a, i, u) <-
     (if list_eqb t [C_J] then
        do t1 <- tk l (S i); do n <- int_tok t1;
        Some (mkAttr None None None None (Some n) None None, S i, [i])
@@ -237,9 +237,9 @@ Definition posix_rule (l : list (list Z)) (i : nat) : option (tzattr * nat * lis
        Some (mkAttr None None None (Some (n + 1)) None None None, i, []));
   let u := u ++ [i] in
   let i := S i in
-  do '(a, i, u) <-
+  do (a, i, u) <-
     (if tk_is l i C_SLASH then
-       do '(v, i2, u2) <- read_hhmm true l (S i);
+       do (v, i2, u2) <- read_hhmm true l (S i);
        Some (mkAttr a.(x_month) a.(x_week) a.(x_weekday) a.(x_yday) a.(x_jyday) a.(x_day) (Some v),
              i2, u ++ [i] ++ u2)
      else Some (a, i, u));
